@@ -543,7 +543,7 @@ class CSemantics:
 
     def check_condition(self, condition):
         condition = self.pointer(condition)
-        if not condition.typ.is_integer:
+        if not (condition.typ.is_scalar or condition.typ.is_pointer):
             condition = self.coerce(condition, self.get_type(["int"]))
         return condition
 
